@@ -118,12 +118,37 @@ Proof. intros p c s. apply per_connection; reflexivity. Qed.
 Print Assumptions C20_per_connection.
 
 (* ------------------------------------------------------------------ C20_fresh_connection_db0 *)
+(* Programs with connections that come and go: events [EvCmd x] (a command) and [EvClose c]
+   (connection c ended: the server forgets its selection, [srv_disconnect]).  Any connection that
+   starts at any point of any program is in database 0, whatever earlier connections -- its
+   predecessor under the same id included -- selected, and it stays there until its own first
+   SELECT:
+     (new id)   an id that issues no SELECT in p is in database 0 after p, from srv_init;
+     (reused)   after [EvClose c], at any point, from any server state, c is in database 0. *)
 Theorem C20_fresh_connection_db0 : forall n c,
   sel_lookup c (ssel (srv_init n)) = 0%nat /\
-  forall p, Forall (fun x => ss_conn x <> c) p ->
-            sel_lookup c (ssel (snd (srv_run (srv_init n) p))) = 0%nat.
-Proof. intros n c. split; [apply fresh_connection_db0|intros p; apply silent_connection_db0]. Qed.
+  (forall p, Forall (no_select_by c) p ->
+             sel_lookup c (ssel (snd (srv_run_ev (srv_init n) p))) = 0%nat) /\
+  (forall s p q, Forall (no_select_by c) q ->
+             sel_lookup c (ssel (snd (srv_run_ev s (p ++ EvClose c :: q)))) = 0%nat).
+Proof.
+  intros n c. split; [apply fresh_connection_db0|]. split.
+  - intros p. apply new_connection_db0.
+  - intros s p q. apply reconnect_db0.
+Qed.
 Print Assumptions C20_fresh_connection_db0.
+
+(* closing a connection touches no database and no other connection's selection *)
+Theorem C20_disconnect_frame : forall s c, sdbs (srv_disconnect s c) = sdbs s /\
+  forall c', c' <> c -> sel_lookup c' (ssel (srv_disconnect s c)) = sel_lookup c' (ssel s).
+Proof. exact disconnect_frame. Qed.
+Print Assumptions C20_disconnect_frame.
+
+(* the program form without lifecycle events (kept from the first round) *)
+Theorem C20_silent_connection_db0 : forall n c p, Forall (fun x => ss_conn x <> c) p ->
+  sel_lookup c (ssel (snd (srv_run (srv_init n) p))) = 0%nat.
+Proof. intros n c p. apply silent_connection_db0. Qed.
+Print Assumptions C20_silent_connection_db0.
 
 (* ------------------------------------------------------------------ non-vacuity *)
 Definition ss (conn : Z) (args : list bytes) : sstep := mkSStep conn 100 100000 args RNil.
@@ -163,4 +188,12 @@ Example ex_one_keyspace :
   = [rOK; rOK; rOK; rOK; rOK; rOK;
      RArr [RBulk (B "v1"); RBulk (B "v2"); RBulk (B "v3")]; RArr [RBulk (B "v1"); RBulk (B "v2"); RBulk (B "v3")];
      RArr [RBulk (B "v1"); RBulk (B "v2"); RBulk (B "v3")]; RNil; rOK; RBulk (B "v1")].
+Proof. vm_compute. reflexivity. Qed.
+
+(* connection 1 selects 2, writes, ends; a new connection under the same id reads database 0 *)
+Example ex_reconnect :
+  fst (srv_run_ev (srv_init 3)
+    [EvCmd (ss 1 [B "SELECT"; B "2"]); EvCmd (ss 1 [B "SET"; B "k"; B "in2"]); EvClose 1;
+     EvCmd (ss 1 [B "GET"; B "k"]); EvCmd (ss 1 [B "SET"; B "k"; B "in0"]); EvCmd (ss 7 [B "GET"; B "k"])])
+  = [Some rOK; Some rOK; None; Some RNil; Some rOK; Some (RBulk (B "in0"))].
 Proof. vm_compute. reflexivity. Qed.
